@@ -343,3 +343,20 @@ M('C14', 'sketchy-count-float', SK, "  return _SketchyState(\n      count=jnp.ze
 M('C14', 'state-attr-store', GR, "    new_state = GraftingState(\n        count=state.count + 1,\n        direction=base_state,\n        norm=graft_state,\n    )", "    new_state = GraftingState(\n        count=state.count + 1,\n        direction=base_state,\n        norm=graft_state,\n    )\n    direction.last_state = base_state")
 M('C14', 'clock-dependent-interval', TS, "  should_update_stats = (state.count % options.update_statistics_freq) == 0", "  import time\n  should_update_stats = ((state.count + int(time.time()) % 1) % options.update_statistics_freq) == 0")
 TW('C14', 'twin-local-list-building', DS, "    new_padded_statistics = []\n    padding_starts = []", "    new_padded_statistics = list()\n    padding_starts = []")
+
+# ------------------------------------------------------------------ C15
+M('C15', 'chain-momentum-lr-swapped', OP, "  return praxis_shim.sharded_chain(\n      graft_tx,\n      momentum_tx,\n      lr_tx,\n  )", "  return praxis_shim.sharded_chain(\n      graft_tx,\n      lr_tx,\n      momentum_tx,\n  )")
+M('C15', 'lr-sign', OP, "    lr_tx = optax.scale(-1.0 * learning_rate)", "    lr_tx = optax.scale(learning_rate)")
+M('C15', 'lr-schedule-offset', OP, "    lr_tx = optax.scale_by_schedule(lambda x: -1.0 * learning_rate(x))", "    lr_tx = optax.scale_by_schedule(lambda x: -1.0 * learning_rate(x + 1))")
+M('C15', 'unmerge-other-options', SO, "      reshaper.unmerge(reshaper_options),", "      reshaper.unmerge(reshaper.Options(options.merge_dims, 0)),")
+M('C15', 'sketchy-gets-block-size', SO, "    return reshaper.Options(options.merge_dims, 0)", "    return reshaper.Options(options.merge_dims, options.shampoo_options.block_size)")
+M('C15', 'ema-scale-after-trace', MO, "    if options.ema:\n      momentum_transforms.append(optax.scale(1 - options.momentum_decay))\n    momentum_transforms.append(\n        _sharded_trace(options.momentum_decay, options.nesterov)\n    )", "    momentum_transforms.append(\n        _sharded_trace(options.momentum_decay, options.nesterov)\n    )\n    if options.ema:\n      momentum_transforms.append(optax.scale(1 - options.momentum_decay))")
+M('C15', 'wd-order-inverted', MO, "  if options.weight_decay_after_momentum:\n    transforms = momentum_transforms + wd_transforms", "  if not options.weight_decay_after_momentum:\n    transforms = momentum_transforms + wd_transforms")
+M('C15', 'trace-nesterov-dropped', MO, "  trace = optax.trace(momentum, nesterov)", "  trace = optax.trace(momentum, False)")
+M('C15', 'shampoo-p-rank', TS, "  p = len(meta.param_shape) * 2\n", "  p = len(meta.param_shape)\n")
+M('C15', 'shampoo-half-exponent', TS, "  half = jnp.where(mask, 1.0, w) ** (-0.5 / p)", "  half = jnp.where(mask, 1.0, w) ** (-1.0 / p)")
+M('C15', 'shampoo-eps-large', TS, "  eps = 1e-6\n  w, v = jnp.linalg.eigh(cov)", "  eps = 1e-3\n  w, v = jnp.linalg.eigh(cov)")
+M('C15', 'sketchy-apply-tail-on-lowrank', SK, "      g = scaled_lowrank_component\n      inv_tail = axis_state.inv_tail if not ekfac else axis_state.inv_prev_tail\n      g += inv_tail * complement", "      g = scaled_lowrank_component\n      inv_tail = axis_state.inv_tail if not ekfac else axis_state.inv_prev_tail\n      g += inv_tail * lowrank_component")
+M('C15', 'sketchy-apply-ekfac-tail', SK, "      inv_tail = axis_state.inv_tail if not ekfac else axis_state.inv_prev_tail", "      inv_tail = axis_state.inv_tail")
+M('C15', 'chain-skips-state', PX, "    for s, fn in zip(state, args):\n      updates, new_s = fn.update(updates, s, params)", "    for s, fn in zip(state, reversed(args)):\n      updates, new_s = fn.update(updates, s, params)")
+TW('C15', 'twin-lr-negation', OP, "    lr_tx = optax.scale(-1.0 * learning_rate)", "    lr_tx = optax.scale(-learning_rate)")
